@@ -6,6 +6,8 @@ Tie: translator + receivers on every public signal interleaved with the execute_
 statement trace, for fault-free runs (fresh install, upgrade, nothing to do) and with an
 injected failure at EVERY write-statement index.
 """
+import re
+
 from .. import evocases, evorig, sigs
 
 
@@ -21,7 +23,11 @@ def check_trace(tr, outcome, apps=('vapp', 'wapp', 'xapp'), ignore_tables=()):
         problems.append('evolving emitted %d times' % n_evolving)
     if n_evolving == 1:
         idx = [i for i, e in enumerate(ev) if e[0] == 'signal' and e[1] == 'evolving'][0]
-        early = [e[1][:60] for e in ev[:idx] if e[0] == 'sql' and any(('"%s_' % a) in e[1] for a in apps)]
+        # (rows of Django's migration table are changes, too; that the TABLE itself is created while the tasks are
+        # prepared, when it does not exist yet, is what the unchanged code does and not counted)
+        early = [e[1][:60] for e in ev[:idx] if e[0] == 'sql' and
+                 (any(('"%s_' % a) in e[1] for a in apps) or
+                  re.match(r'\s*(INSERT INTO|UPDATE|DELETE FROM) "django_migrations"', e[1]))]
         if early:
             problems.append('changes before evolving: %s' % early[0])
         if n_evolved + n_failed != 1:
